@@ -260,7 +260,7 @@ func displayName(key string) string {
 func (e *Engine) newExec(fn *ssa.Function, quiet bool) *FnExec {
 	fe := &FnExec{eng: e, script: &Script{}, regs: map[ssa.Value]Val{}, heapSort: map[string]string{}, quiet: quiet,
 		sentinel: map[*ssa.Global]int{}, globals: map[*ssa.Global]Val{}, tids: map[string]int{}, unknown: map[string]int{},
-		used: map[string]bool{}, abstracted: map[string]int{}, phiEdges: map[*ssa.BasicBlock][]phiEdge{}, ifaceType: map[Term]types.Type{}, owned: map[Term]bool{}, cbInfo: map[*ssa.Function]*cbState{}}
+		used: map[string]bool{}, abstracted: map[string]int{}, phiEdges: map[*ssa.BasicBlock][]phiEdge{}, ifaceType: map[Term]types.Type{}, owned: map[Term]bool{}, boxed: map[Term]Val{}, cbInfo: map[*ssa.Function]*cbState{}}
 	if fn.Pkg != nil {
 		fe.pkg = fn.Pkg.Pkg
 	} else if fn.Parent() != nil {
@@ -405,7 +405,7 @@ func (e *Engine) verifyFunc(key string, timeoutS, seed int, allSolvers bool, sol
 		fr := fe.newFrame(fn, con, res.Name)
 		for _, li := range fr.loops {
 			if p := prev[li.ord]; p != nil {
-				li.havocCells, li.havocHeap = p.havocCells, p.havocHeap
+				li.havocCells, li.havocHeap, li.havocPaths = p.havocCells, p.havocHeap, p.havocPaths
 			}
 		}
 		fe.top = fr
@@ -422,7 +422,7 @@ func (e *Engine) verifyFunc(key string, timeoutS, seed int, allSolvers bool, sol
 	fr := fe.newFrame(fn, con, res.Name)
 	for _, li := range fr.loops {
 		if p := prev[li.ord]; p != nil {
-			li.havocCells, li.havocHeap = p.havocCells, p.havocHeap
+			li.havocCells, li.havocHeap, li.havocPaths = p.havocCells, p.havocHeap, p.havocPaths
 		}
 	}
 	fe.top = fr
@@ -433,7 +433,7 @@ func (e *Engine) verifyFunc(key string, timeoutS, seed int, allSolvers bool, sol
 		// every site a contract is keyed to must exist in the current code: a clause keyed to a vanished
 		// site fails (closed) as that clause's obligation
 		for _, site := range sortedKeys(con.Calls) {
-			if _, ok := fr.callIdx[site]; !ok {
+			if _, ok := fr.callIdx[site]; !ok && !fr.pseudoSites[site] {
 				for _, a := range con.Calls[site].Asserts {
 					fe.clauseErr = "call site " + site + " does not exist in the current code"
 					fe.oblige(fr, fmt.Sprintf("call[%s].assert:%s", site, a.Label), a.Props, "true", "false", fn.Pos(), a.Src)
@@ -489,6 +489,9 @@ func (e *Engine) verifyFunc(key string, timeoutS, seed int, allSolvers bool, sol
 	if len(rpcs) > 0 {
 		probe := &Obligation{PC: tOr(rpcs...), Goal: "false", NAsm: len(fe.script.Asms)}
 		txt := fe.script.text(probe, false, nil)
+		if d := os.Getenv("GCV_DUMP_VACUITY"); d != "" {
+			os.WriteFile(d, []byte(txt), 0o644)
+		}
 		res.Vacuity = checkSat(txt, timeoutS)
 		if res.Vacuity == "unsat" {
 			res.Errs = append(res.Errs, "vacuity: the assumptions of "+res.Name+" are contradictory (no return reachable)")
